@@ -26,6 +26,7 @@ EXPLANATION = (
     "cached canvas (otherwise the wrapper's attributes are baked into the child and survive a later set_attr_map); (6) CUTATTR: the space replacing a cut wide character keeps the cut character's attribute."
     ' Added after seed round 3: (9) FOCUS-FWD over all widget modules - a focus map further down is applied exactly when the widget is in focus because every container / decoration passes the flag on; (10) ACCUM on the rle walkers that cut attribute runs.'
     ' Round 4: (11) LOOPFRESH and (12) PAIRLEN on apply_text_layout / apply_target_encoding (attribute and charset run lengths are the length of the piece just appended); (13) no display code indexes a palette entry with a constant position.'
+    ' Round-4 triage: (14) NONE-SENTINEL on attribute maps; (15) _tagmarkup_recurse reads the last run only when both run lists are non-empty; (16) the 88-colour fallback helper of register_palette_entry examines every comma-separated setting of a description.'
 )
 NOT_DECIDED = "Run-length alignment of attributes through layout and encoding, composition order of nested maps as a value statement, the SGR text produced for every AttrSpec and its decoding."
 ASSUMPTIONS = []
@@ -316,6 +317,32 @@ def rule_markup_index_guard(ctx: Ctx) -> RuleResult:
     return rr
 
 
+def rule_desc_tokens(ctx: Ctx) -> RuleResult:
+    """A foreground / background description is a comma-separated list of settings in any order ('bold,h100' and
+    'h100,bold' mean the same to AttrSpec, which splits on "," and strips each part).  A helper that looks for a
+    colour token in such a string itself (the 88-colour fallback test of register_palette_entry) has to look at
+    every part: its string parameter is read only as the receiver of `.split(",")`, never by position
+    (startswith on the whole string, the first part only)."""
+    p = ctx.p
+    rr = RuleResult("SIB", "C17.16", "helpers that search a colour description for a token examine every comma-separated part (the parameter is only read through .split(','))", floor=1)
+    reg = p.func("urwid.display.common.BaseScreen.register_palette_entry")
+    helpers = [f for f in p.functions.values() if getattr(f, "parent", None) is reg and not f.is_lambda]
+    if not helpers:
+        raise AnalysisError("register_palette_entry: the nested colour-description helper was not found")
+    for h in helpers:
+        if not h.params:
+            continue
+        prm = h.params[0]
+        loads = [n for n in h.own_nodes() if isinstance(n, ast.Name) and n.id == prm and isinstance(n.ctx, ast.Load)]
+        split_recv = {id(c.func.value) for c in h.own_nodes() if isinstance(c, ast.Call) and isinstance(c.func, ast.Attribute) and c.func.attr == "split" and c.args and isinstance(c.args[0], ast.Constant) and c.args[0].value == "," and len(c.args) == 1 and not c.keywords}
+        stores = [n for n in h.own_nodes() if isinstance(n, ast.Name) and n.id == prm and isinstance(n.ctx, ast.Store)]
+        bad = [n for n in loads if id(n) not in split_recv]
+        rr.inst(short(h), True, {"helper": short(h), "parameter": prm, "reads": len(loads), "reads_other_than_split": len(bad), "parameter_reassigned": bool(stores)})
+        if bad or stores or not loads:
+            rr.add(finding("SIB", h, (bad or stores or [h.node])[0], f"{h.name}() inspects the description string `{prm}` by position instead of part by part: a colour token that is not the first setting ('bold,h100') is missed, so the 88-colour AttrSpec is built from a description that is only valid for 256 colours and register_palette_entry raises AttrSpecError", construct=f"{h.name}: description not examined part by part"))
+    return rr
+
+
 def run(ctx: Ctx):
     r6 = c02.rule_cut_attr(ctx)
     r6.clause = "C17.6"
@@ -336,13 +363,14 @@ def run(ctx: Ctx):
     from ..rules import pairlen
 
     r12 = pairlen.run_pairlen(ctx.p, "C17.12", ["urwid.canvas.apply_text_layout", "urwid.util.apply_target_encoding"], floor=8)
-    return [rule_palette_order(ctx), rule_palette_notify(ctx), rule_palette_cache(ctx), rule_palette_total(ctx), rule_attrmap(ctx), r6, r7, r8, r9, r10, r11, r12, rule_palette_depth_index(ctx), _sentinel(ctx), rule_markup_index_guard(ctx)]
+    return [rule_palette_order(ctx), rule_palette_notify(ctx), rule_palette_cache(ctx), rule_palette_total(ctx), rule_attrmap(ctx), r6, r7, r8, r9, r10, r11, r12, rule_palette_depth_index(ctx), _sentinel(ctx), rule_markup_index_guard(ctx), rule_desc_tokens(ctx)]
 
 
 _CM = "urwid/display/common.py"
 _RW = "urwid/display/_raw_display_base.py"
 _HT = "urwid/display/html_fragment.py"
 MUTANTS = [
+    Mut("large-h-first-setting-only", _CM, "BaseScreen.register_palette_entry", "            for part in desc.split(\",\"):\n                part = part.strip()  # noqa: PLW2901\n                if part.startswith(\"h\") and part[1:].isdigit() and int(part[1:], 10) > 15:\n                    return True\n            return False\n", "            part = desc.split(\",\", 1)[0].strip()\n            return part.startswith(\"h\") and part[1:].isdigit() and int(part[1:], 10) > 15\n", "SIB|display.common.BaseScreen.register_palette_entry.<locals>.large_h"),
     Mut("attrwrap-focus-attr-none-mapped", "urwid/widget/attr_wrap.py", "AttrWrap.set_focus_attr", "self.set_focus_map(None if focus_attr is None else {None: focus_attr})", "self.set_focus_map({None: focus_attr})", "GUARD|widget.attr_wrap.AttrWrap.set_focus_attr"),
     Mut("markup-merge-reads-empty-run-list", "urwid/util.py", "_tagmarkup_recurse", "            if ral and al:", "            if ral:", "GUARD|util._tagmarkup_recurse"),
     Mut("focus-map-getter-by-truthiness", "urwid/widget/attr_map.py", "AttrMap.get_focus_map", "        if self._focus_map is not None:", "        if self._focus_map:", "SENTINEL|widget.attr_map.AttrMap.get_focus_map"),
